@@ -495,12 +495,12 @@ def rule_loop(ck, rid="C01.R6"):
 
 
 def run(ck):
-    rule_precedence(ck)
-    rule_heap_key(ck)
-    rule_pairing(ck)
-    rule_session_checked_unplug(ck)
-    rule_network_transitions(ck)
-    rule_loop(ck)
+    ck.attempt(rule_precedence)
+    ck.attempt(rule_heap_key)
+    ck.attempt(rule_pairing)
+    ck.attempt(rule_session_checked_unplug)
+    ck.attempt(rule_network_transitions)
+    ck.attempt(rule_loop)
     # stations are looked up by station id, sessions by session id (index-domain typing of the functions on the plug/unplug path;
     # the package-wide sweep is C10.R1)
     from ..indexdom import check_function as index_check
@@ -509,11 +509,11 @@ def run(ck):
         typed += index_check(ck, "C01.R10", ck.repo.fn(q))[0]
     ck.floor("C01.R10", typed, 3, "typed index sites on the plug/unplug path")
     from .c13 import rule_occupant
-    rule_occupant(ck, rid="C01.R7")
+    ck.attempt(rule_occupant, rid="C01.R7")
     # events come out of the queue in (time, precedence) order only if the queue is a heap and is drained by popping (shared with C11)
     from .c11 import rule_heap_discipline, rule_cut
-    rule_heap_discipline(ck, rid="C01.R2h")
-    rule_cut(ck, rid="C01.R2c")
+    ck.attempt(rule_heap_discipline, rid="C01.R2h")
+    ck.attempt(rule_cut, rid="C01.R2c")
     # an event in a period makes the scheduler run in that period, so connected EVs keep receiving current (shared with C05)
     from .c05 import rule_event_flags
-    rule_event_flags(ck, rid="C01.R8")
+    ck.attempt(rule_event_flags, rid="C01.R8")
